@@ -644,11 +644,17 @@ theorem C14_compressor_output (s : Compressor ℝ) (dt : ℝ) (hm : 1 ≤ s.mix.
 
 /-! ## distortion -/
 
-/-- **hard clip** as coded: `clamp(x·d, −1, 1) / d` per channel (`d` the linear drive). -/
+/-- **hard clip** as coded: `clamp(x·d, −1, 1) / d` per channel (`d ≠ 0` the linear drive); a silent
+    drive (`d = 0`, i.e. −60 dB or less) leaves the signal undistorted. -/
 theorem C14_distortion_hard (d : ℝ) (f : Frame ℝ) :
-    Distortion.wet .hardClip d f = ⟨clamp (f.left * d) (-1) 1 / d, clamp (f.right * d) (-1) 1 / d⟩ := by
-  simp only [Distortion.wet, Distortion.shape, lit_1]
-  ext <;> simp
+    (d ≠ 0 → Distortion.wet .hardClip d f = ⟨clamp (f.left * d) (-1) 1 / d, clamp (f.right * d) (-1) 1 / d⟩)
+      ∧ (∀ k, Distortion.wet k 0 f = f) := by
+  constructor
+  · intro hd
+    simp only [Distortion.wet, Distortion.shape, lit_1, lit_0, feq_real, hd, decide_false, Bool.false_eq_true,
+      if_false]
+    ext <;> simp
+  · intro k; simp [Distortion.wet]
 
 /-- **soft clip** as coded: `(x·d / (1 + |x·d|)) / d`, which is `x / (1 + |x·d|)` for `d ≠ 0`. -/
 theorem C14_distortion_soft (d : ℝ) (hd : d ≠ 0) (f : Frame ℝ) :
@@ -657,7 +663,7 @@ theorem C14_distortion_soft (d : ℝ) (hd : d ≠ 0) (f : Frame ℝ) :
     intro x
     have : (1 + |x * d|) ≠ 0 := by linarith [abs_nonneg (x * d)]
     field_simp
-  simp only [Distortion.wet, Distortion.shape]
+  simp only [Distortion.wet, Distortion.shape, lit_0, feq_real, hd, decide_false, Bool.false_eq_true, if_false]
   ext
   · simp only [Frame.fdivs_left, Frame.fscale_left, r32_real, abs_real, lit_1]; exact key _
   · simp only [Frame.fdivs_right, Frame.fscale_right, r32_real, abs_real, lit_1]; exact key _
@@ -689,7 +695,7 @@ theorem C14_distortion_transparent (d : ℝ) (hd : 0 < d) (f : Frame ℝ) :
     nlinarith
   refine ⟨?_, ?_, ?_⟩
   · intro hl hr
-    rw [C14_distortion_hard, cl _ hl, cl _ hr]
+    rw [(C14_distortion_hard d f).1 hd.ne', cl _ hl, cl _ hr]
     ext <;> (simp only; field_simp)
   · rw [C14_distortion_soft d hd.ne']; exact soft f.left
   · rw [C14_distortion_soft d hd.ne']; exact soft f.right
